@@ -693,12 +693,35 @@ static Type *pointers(Token **rest, Token *tok, Type *ty) {
   return ty;
 }
 
+// Returns the ")" that closes the "(" at `tok`, or NULL if there is none.
+static Token *matching_paren(Token *tok) {
+  int depth = 0;
+  for (; tok->kind != TK_EOF; tok = tok->next) {
+    if (equal(tok, "("))
+      depth++;
+    else if (equal(tok, ")") && --depth == 0)
+      return tok;
+  }
+  return NULL;
+}
+
 // declarator = pointers ("(" ident ")" | "(" declarator ")" | ident) type-suffix
 static Type *declarator(Token **rest, Token *tok, Type *ty) {
   ty = pointers(&tok, tok, ty);
 
   if (equal(tok, "(")) {
     Token *start = tok;
+    Token *end = matching_paren(start);
+    if (end) {
+      // Parse what follows the parenthesized declarator first and the
+      // inside once, afterwards.  (Parsing the inside twice at every
+      // level takes 2^depth steps.)
+      ty = type_suffix(rest, end->next, ty);
+      ty = declarator(&tok, start->next, ty);
+      if (tok != end)
+        skip(tok, ")");
+      return ty;
+    }
     Type dummy = {};
     declarator(&tok, start->next, &dummy);
     tok = skip(tok, ")");
@@ -726,6 +749,14 @@ static Type *abstract_declarator(Token **rest, Token *tok, Type *ty) {
 
   if (equal(tok, "(")) {
     Token *start = tok;
+    Token *end = matching_paren(start);
+    if (end) {
+      ty = type_suffix(rest, end->next, ty);
+      ty = abstract_declarator(&tok, start->next, ty);
+      if (tok != end)
+        skip(tok, ")");
+      return ty;
+    }
     Type dummy = {};
     abstract_declarator(&tok, start->next, &dummy);
     tok = skip(tok, ")");
